@@ -442,3 +442,15 @@ add('c07-wells-alias-one-container', ['C01', 'C07'], 'fire', 'Plate.__init__',
     "self.wells = numpy.array([[Container(f'well {row},{col}', max_volume=f'{max_volume_per_well} L') for col in self.column_names] for row in self.row_names])",
     "well = Container('well', max_volume=f'{max_volume_per_well} L')\n    self.wells = numpy.array([[well for col in self.column_names] for row in self.row_names])",
     'every well is the same object')
+
+# ------------------------------------------------------------------------------------------------ single-pass iterables
+add('c08-create-container-keeps-iterator', ['C08'], 'fire', 'Recipe.create_container',
+    '        initial_contents = list(initial_contents)\n', '',
+    'F36 re-broken: a generator of initial contents is empty when the recipe is baked')
+add('c16-uses-validates-then-unpacks', ['C08', 'C16'], 'fire', 'Recipe.uses',
+    'unpacked = list(arg)\n            if not all((isinstance(elem, (Container, Plate)) for elem in unpacked)):\n                raise TypeError(\'Invalid type in iterable.\')\n            self.uses(*unpacked)',
+    'if not all((isinstance(elem, (Container, Plate)) for elem in arg)):\n                raise TypeError(\'Invalid type in iterable.\')\n            self.uses(*arg)',
+    'the validation consumes a one-shot iterable: nothing is declared')
+add('c09-destinations-checked-then-looped', ['C09'], 'fire', 'Recipe.get_substance_used',
+    'elif isinstance(destinations, Iterable):', 'elif isinstance(destinations, Iterable) and all((isinstance(c, (Container, Plate)) for c in destinations)):',
+    'the type check consumes a one-shot iterable of destinations')
